@@ -6,13 +6,15 @@ EXTENDS Dict_Pool
 AllForms == {<<a, b, c>> : a \in {"short", "long", "same"}, b \in {"short", "long", "same"}, c \in {"short", "long", "same"}}
 \* the quick instance uses the three uniform assignments and two mixed ones; the full instance (FormsAll) all 27
 CONSTANT FormsAll
-FormSeqs == IF ~FormsAll THEN {<<"short","short","short">>, <<"long","long","long">>, <<"same","same","same">>,
-                                 <<"short","long","same">>, <<"same","short","long">>}
-            ELSE AllForms
+FormSeqs5 == {<<"short","short","short">>, <<"long","long","long">>, <<"same","same","same">>,
+              <<"short","long","same">>, <<"same","short","long">>}
+FormSeqs == IF ~FormsAll THEN FormSeqs5 ELSE AllForms
+\* the sample of additional key types (TypesNew) takes the five representative assignments in both instances
+FormsFor(ty) == IF ty \in TypesNew THEN FormSeqs5 ELSE FormSeqs
 VARIABLES fty, fset, fforms, fout
 FInit == /\ fty \in Types
          /\ fset \in {S \in SUBSET PoolOf(fty) : Cardinality(S) <= MaxSet /\ Cardinality(S) >= 1}
-         /\ fforms \in FormSeqs /\ fout = "todo"
+         /\ fforms \in FormsFor(fty) /\ fout = "todo"
 FVec == LET m == {<<k, Val(k)>> : k \in fset}
             s == SortedItems(m)
             items == [i \in 1..Len(s) |-> [k |-> s[i][1], v |-> [b |-> s[i][2], r |-> <<>>]]]
